@@ -95,7 +95,38 @@ pub fn run(ctx: &Ctx) -> i32 {
         return runner::replay(&c, p);
     }
     let n = if ctx.thorough() { thorough } else { quick };
-    let stats = runner::run_campaign(&c, ctx, n);
+    // replay tier: saved minimal histories of earlier findings and of earlier oracle mistakes
+    let mut regress = runner::Stats::default();
+    let findings = crate::known::load();
+    if let Ok(rd) = std::fs::read_dir("/verif/regress") {
+        let mut files: Vec<_> = rd.filter_map(|e| e.ok()).map(|e| e.path()).filter(|p| p.extension().map_or(false, |x| x == "json")).collect();
+        files.sort();
+        for f in files {
+            let body: serde_json::Value = match std::fs::read_to_string(&f).ok().and_then(|s| serde_json::from_str(&s).ok()) {
+                Some(b) => b,
+                None => continue,
+            };
+            if body["engine"].as_str().unwrap_or("tower") != "tower" {
+                continue;
+            }
+            let case: History = match serde_json::from_value(body["case"].clone()) {
+                Ok(c) => c,
+                Err(_) => continue,
+            };
+            let rep = c.run_case(&case, 0);
+            let (unknown, kn) = runner::triage(&findings, &rep);
+            regress.absorb(&rep);
+            for k in kn {
+                *regress.known_hits.entry((k.property, k.signature)).or_insert(0) += 1;
+            }
+            if let Some(v) = unknown.first() {
+                regress.failures.push((v.clone(), body["case"].clone()));
+            }
+        }
+    }
+    let replayed = regress.evaluations;
+    let mut stats = if regress.failures.is_empty() { runner::run_campaign(&c, ctx, n) } else { runner::Stats::default() };
+    stats.merge(regress);
     let mut ev = Evidence::default();
     ev.level = "exploration".into();
     ev.rule = rule.into();
@@ -106,5 +137,6 @@ pub fn run(ctx: &Ctx) -> i32 {
         "outcomes after an 'already in chain' (-27) verdict are not specified by the properties: the model adopts what the tower did".into(),
     ];
     ev.extra.insert("cases_per_worker".into(), json!(n));
+    ev.extra.insert("regression_histories_replayed".into(), json!(replayed));
     runner::conclude(ctx, c.id, stats, ev, started)
 }
